@@ -124,6 +124,14 @@ Section Static.
       | Some q => Some (skey q ++ modname)
       end.
 
+  (* qualified names once the object x = (D, ix, 0) has been re-exported by module R under the name n:
+     x is called n and its parent is R; everything below x follows *)
+  Definition moved_name (D ix n : N) (o : oid) : N := if oid_eqb o (D, ix, 0) then n else sname o.
+  Definition moved_parent (R D ix : N) (o : oid) : option oid :=
+    if oid_eqb o (D, ix, 0) then Some (R, 0, 0) else sparent o.
+  Definition moved_key (R D ix n : N) (o : oid) : path :=
+    qname_f (moved_name D ix n) (moved_parent R D ix) depth_fuel o.
+
   (* a schedule: the order of System.unprocessed_modules, a permutation of the module indices *)
   Definition module_ids : list N := map N.of_nat (seq 0 (length p)).
 End Static.
